@@ -2,15 +2,16 @@
 // (access list, transient storage, logs) does not leak between transactions.
 //
 // Runtime monitoring of the real interpreter / AccountDB / block executor:
-//   (a) differential twins: a generated tree of nested CALL / CALLCODE /
-//       DELEGATECALL / STATICCALL / CREATE / CREATE2 / AUTHCALL frames with
-//       state-modifying actions is run as is (A) and with every outermost dead
-//       frame (failing, or static) stripped of its body (B); both must end in the
-//       same state root, logs, accounts and accessor answers. A control run per
-//       dead frame (frame revived) proves that the stripped body has an effect.
-//   (b) transaction sequences on one AccountDB through VMExecutor (and directly):
-//       right after Prepare the scratch state must be empty, TLOAD must read 0,
-//       the receipt must carry exactly the transaction's own logs.
+//
+//	(a) differential twins: a generated tree of nested CALL / CALLCODE /
+//	    DELEGATECALL / STATICCALL / CREATE / CREATE2 / AUTHCALL frames with
+//	    state-modifying actions is run as is (A) and with every outermost dead
+//	    frame (failing, or static) stripped of its body (B); both must end in the
+//	    same state root, logs, accounts and accessor answers. A control run per
+//	    dead frame (frame revived) proves that the stripped body has an effect.
+//	(b) transaction sequences on one AccountDB through VMExecutor (and directly):
+//	    right after Prepare the scratch state must be empty, TLOAD must read 0,
+//	    the receipt must carry exactly the transaction's own logs.
 package main
 
 import (
@@ -18,6 +19,7 @@ import (
 	"encoding/json"
 	"fmt"
 	"os"
+	"regexp"
 	"strconv"
 	"strings"
 	"time"
@@ -29,8 +31,8 @@ import (
 type twinCase struct {
 	Oracle   string `json:"oracle"` // "twin"
 	EntryAll bool   `json:"entry_all,omitempty"`
-	Label  string `json:"label,omitempty"`
-	Tree   *Node  `json:"tree"`
+	Label    string `json:"label,omitempty"`
+	Tree     *Node  `json:"tree"`
 }
 
 func cleanup(dir string) {
@@ -120,7 +122,6 @@ func childMain(r *mon.Run, args []string) {
 		nt := judgeTree(r, st, sc.Tree, "sys")
 		entryAll = false
 		if nt {
-			r.Count("triple_"+sc.Kind+"_"+sc.Mode+"_"+sc.Action, 1)
 			r.Distinct("triples_nontrivial", []byte(sc.Kind+"/"+sc.Mode+"/"+sc.Action))
 			r.Distinct("actions_nontrivial", []byte(sc.Action))
 		}
@@ -174,7 +175,7 @@ func main() {
 			os.Exit(2)
 		}
 		dir := env.ScratchDir("verif-c12-")
-		bootTwin(strings.Contains(string(v.Witness), `"pre_proposal013":true`))
+		bootTwin(regexp.MustCompile(`"pre_proposal013":\s*true`).Match(v.Witness))
 		ok := runCaseJSON(r, v.Witness)
 		cleanup(dir)
 		if !ok {
@@ -195,6 +196,9 @@ func main() {
 		r.Absorb(res, "C12:child")
 	}
 	mon.CleanWork()
+	if n := r.Get("scratch_refund_counter_nonzero_at_start"); n > 0 {
+		r.Note("the gas refund counter of AccountDB was non-zero right after Prepare at the start of %d transactions (Prepare does not reset it, VMExecutor does not finalise between transactions); recorded only — the property text does not name the refund counter and nothing in the node reads it", n)
+	}
 
 	must := append(tableCells(),
 		"twin_pairs_nontrivial", "twin_controls_effective", "static_subtrees_nontrivial", "twin_frames_failed_observed",
@@ -206,7 +210,8 @@ func main() {
 		DistinctNontrivial: int64(r.DistinctCount("twin_nontrivial") + r.DistinctCount("scratch_nontrivial")),
 		Rule: "(a) twins: systematic frame-kind x failure-mode x action programs (failing frame at nesting depth 1-2) plus seeded random trees (nesting depth 1-4, any success/failure pattern, " +
 			"actions SSTORE new/overwrite/clear, LOG0-4, TSTORE, value CALL to existing/fresh account, CREATE/CREATE2, SELFDESTRUCT, STAKE, UNSTAKE, AUTHCALL, in-EVM probes); A = program, B = same deployed code with every outermost dead " +
-			"(failing or static) frame skipping its body, selected through the block context so that code and pre-state are identical; non-trivial = at least one dead frame whose revived control run differs from B; " +
+			"(failing or static) frame skipping its body, selected through the block context so that code and pre-state are identical; B0 = B with the dead CALL/CALLCODE/DELEGATECALL/STATICCALL frames (systematic programs: every kind, creator/authority nonce exempted) not entered at all, " +
+			"compared with B to catch residue of the frame entry itself (value transfer, account creation); a failing top-level call is compared with the untouched pre-state; non-trivial = at least one dead frame whose revived control run differs from B; " +
 			"table cells counted only when the failing-frame trace observed at the frame hook equals the planned one. " +
 			"(b) sequences of 2-5 contract-call transactions on one AccountDB through VMExecutor (2/3) or Prepare+Call (1/3); non-trivial = a transaction starts after a successful one that left transient storage / access list / logs behind; distinct by program / sequence",
 		Assumptions: []string{
